@@ -273,7 +273,13 @@ impl Console for SimConsole {
             Caller::Prompt => Who::Prompt,
             Caller::Service => Who::Service,
         };
-        if self.rd.buffer().is_empty() {
+        // (dry runs: a new line is made up only when everything served so far has been taken -
+        // a line longer than the buffer is still being read when the buffer runs empty)
+        let all_taken = {
+            let sh = self.sh.borrow();
+            sh.pos >= sh.stdin.len()
+        };
+        if self.rd.buffer().is_empty() && all_taken {
             if let Some(f) = self.adaptive.as_mut() {
                 if let Some(mut line) = f(who, &self.last_regs, &self.shadow) {
                     self.sh.borrow_mut().stdin.append(&mut line);
